@@ -1,5 +1,5 @@
 (* Witness executions (evaluated with the executable SHA-256) on which the faithful model violates
-   the full statements (2, 3), and the regression witness of a fixed one (1); each is replayed on the real store by harness/c02 (directed scripts). *)
+   the full statement (2), and the regression witnesses of the fixed ones (1, 3); each is replayed on the real store by harness/c02 (directed scripts). *)
 From V Require Import Hist.Machine Hist.Lemmas Hist.Aht Merkle.Sha256.
 Open Scope N_scope.
 
@@ -15,9 +15,10 @@ Definition wtx (k v ts : N) : txspec :=
 (* one commit call of client c: value write + critical section *)
 Definition wpre (c k v ts : N) : list op := [OBegin c (wtx k v ts) None false; OLocked c].
 
-(* (1) [FIXED by 2077e08] Discard + Precommit + reopen: the discarded tx A is reloaded from the tx log
-   as tx 3; OpenWith now resets the binary-linking tree to the committed transactions and rebuilds it
-   from the reloaded ones, so tx 4 embeds the root over the Alh of txs 1..3 (regression witness). *)
+(* (1) [FIXED by 2077e08, then 8728288] Discard + Precommit + reopen: the discarded tx A used to be reloaded
+   from the tx log as tx 3 while the binary-linking tree kept the leaf of its replacement B. OpenWith now
+   rebuilds the tree from the reloaded transactions (2077e08) and Discard cuts A off the tx log (8728288):
+   tx 3 is B and every BlRoot is the root over the earlier Alh values (regression witness). *)
 Definition w1_ops : list op :=
   (wpre 0 1 11 1001 ++ wpre 1 2 12 1002 ++ [OAllow 2] ++ wpre 0 65 13 1003 ++ [ODiscard 3] ++
    wpre 1 66 14 1004 ++ [OReopen; OAllow 3] ++ wpre 0 4 15 1005 ++ [OAllow 4])%list.
@@ -32,7 +33,7 @@ Definition blroot_ok (s : state) (k : N) : bool :=
 Lemma blroot_fixed_witness :
   let s := run Hs (init Hs (wcfg false true)) w1_ops in
   s_committed s = 4 /\ forallb (blroot_ok s) [1; 2; 3; 4] = true /\
-  match read_tx s 3 with Ok r => map e_key (r_entries r) = [[65]] | _ => False end.
+  match read_tx s 3 with Ok r => map e_key (r_entries r) = [[66]] | _ => False end.
 Proof. vm_compute. repeat split; reflexivity. Qed.
 
 (* (2) a commit call waiting for a transaction that is discarded is woken up, with its own header,
@@ -48,16 +49,17 @@ Lemma ack_refuted_witness :
   s_committed s = 1 /\ length (acked s) = 2%nat /\ forallb (ack_ok s) (acked s) = false.
 Proof. vm_compute. repeat split; reflexivity. Qed.
 
-(* (3) sync() stops midway (allowance beyond the precommitted id after a Discard) leaving commit-log
-   entries in the write buffer; Close flushes them and the reopened store reports as committed
-   transactions that were never committed before -- here all of them had even been DISCARDED *)
+(* (3) [FIXED by 8728288] sync() stops midway (allowance beyond the precommitted id after a Discard): it
+   used to leave commit-log entries in the write buffer, Close flushed them and the reopened store reported
+   as committed transactions that were never committed (here all of them had even been DISCARDED). The
+   commit loop now rewinds the commit log when it does not complete and Discard cuts the tx log: the
+   reopened store has nothing committed and nothing precommitted (regression witness). *)
 Definition w3_ops : list op :=
   (wpre 0 1 11 1001 ++ wpre 1 2 12 1002 ++ wpre 2 3 13 1003 ++
    [OAllow 3; ODiscard 3; OSync; OSetExt true; ODiscard 1])%list.
 
-Lemma reopen_refuted_witness :
+Lemma reopen_fixed_witness :
   let s := run Hs (init Hs (wcfg true true)) w3_ops in
   let s' := fst (step Hs s OReopen) in
-  s_committed s = 0 /\ s_inmem s = 0 /\ s_committed s' = 2 /\
-  match read_tx s' 2 with Ok r => map e_key (r_entries r) = [[2]] | _ => False end.
+  s_committed s = 0 /\ s_inmem s = 0 /\ s_committed s' = 0 /\ s_inmem s' = 0 /\ s_txlog s' = [].
 Proof. vm_compute. repeat split; reflexivity. Qed.
